@@ -169,3 +169,69 @@ Print Assumptions C18_mark_zero_noop.
 Print Assumptions C18_model_ok.
 Print Assumptions C18_model_no_marks.
 Print Assumptions C18_model_ok_partial.
+
+(* ------------------------------------------------------------------------------------------------------------
+   Xen flavour (feature `xen`): "... and on Xen regions mapped in advance and on demand".
+   Model: Impl/Xen.v (the pointer-guard / on-demand window machinery of src/mmap/xen.rs, tied to /repo by the
+   C17xen and C18xen correspondence runs) composed with the C18 model above (Suite/C18xen.v run_C18x).
+   [zlen op]: op is one of the access operations of Impl/Xen.v that names no bytes (empty buffer, guard of an
+   empty slice, zero-sized object, array of zero-sized / of no elements, zero-count stream transfer, slice copy
+   of an empty slice); proofs in Proofs/C18xen.v. *)
+From VM Require Import Impl.MmapBuild Impl.Xen Spec.C18xen Suite.C18xen Proofs.C18xen.
+From VM Require Proofs.C17.
+
+(* for EVERY zero-length operation on EVERY region - unix, foreign, grant mapped in advance, grant mapped on demand;
+   any size, guest base, offset (page aligned or not, inside or outside the region), any device answers, both
+   build profiles: the event log is EMPTY (no map ioctl, no mmap, no munmap, no unmap ioctl), the operation
+   completes or is refused with Err - never a panic or a fault - and it completes (Ok) at every offset inside the
+   region, its end included.  (Before fix 70c7c6a a zero-length guard of an on-demand region panicked: F6a.) *)
+Theorem C18_xen_zero_len_noop : forall m o g op, zlen op = true ->
+  fst (run_op m o g op) = [] /\
+  (snd (run_op m o g op) = RDone None \/ snd (run_op m o g op) = RErr) /\
+  (xr_size g < W64 -> zoff op <= xr_size g -> zcount op <= ISZ_MAX -> snd (run_op m o g op) = RDone None).
+Proof. exact xen_zero_len_noop_lemma. Qed.
+
+(* the composed model, every well-formed case of suite C18xen (every entry point, layer, container, address,
+   region kind): the region is built, the device log of the call is empty, the device holds exactly the region's
+   own grant afterwards (no window), and what is mapped is exactly the region's own mapping *)
+Theorem C18x_model_quiet : forall c, wf18x c = true ->
+  exists mo, run_C18x c = Some mo /\ ox_base mo = run_C18 (kx_base c) /\
+    ox_evs mo = [] /\ ox_live mo = own_live c /\ ox_mapped mo = own_mapped c.
+Proof. exact model_quiet_lemma. Qed.
+
+(* the composed model against the executable checker ok_C18x.
+   FULL statement:  forall c, wf18x c = true -> exists mo, run_C18x c = Some mo /\ ok_C18x c mo = true.
+   Proved for the cases whose embedded C18 case is covered by C18_model_ok_partial ([covered18]); the Xen half of
+   the verdict (C18x_model_quiet) holds for ALL well-formed cases, so the full statement follows as soon as the
+   full C18_model_ok does. *)
+Theorem C18x_model_ok_partial : forall c, wf18x c = true -> covered18 (kx_base c) = true ->
+  exists mo, run_C18x c = Some mo /\ ok_C18x c mo = true.
+Proof. exact model_ok_x_partial_lemma. Qed.
+
+Example C18x_nonvacuous :
+  (* a zero-count stream read at the UNALIGNED offset 4099 of an on-demand grant region, and a store through a
+     reference to a zero-sized object at offset 5 of an advance-mapped grant region *)
+  let c1 := {| kx_base := {| c_mode := Debug; c_layer := LRegion; c_op := ZReadFrom; c_ps := 4096;
+                             c_regs := [(262144, 8292)]; c_ri := 0; c_sub_off := 0; c_sub_len := 8292;
+                             c_addr := 4099; c_esz := 0; c_n := 0; c_k := 4; c_sk := 0 |};
+               kx_rkind := 3; kx_page := 4096 |} in
+  let c2 := {| kx_base := {| c_mode := Release; c_layer := LSlice; c_op := ZRefStore; c_ps := 4096;
+                             c_regs := [(262144, 8292)]; c_ri := 0; c_sub_off := 3; c_sub_len := 100;
+                             c_addr := 2; c_esz := 0; c_n := 0; c_k := 0; c_sk := 1 |};
+               kx_rkind := 2; kx_page := 4096 |} in
+  wf18x c1 = true /\ wf18x c2 = true /\
+  (exists mo, run_C18x c1 = Some mo /\ ok_C18x c1 mo = true /\ ox_live mo = 0 /\ ox_mapped mo = 0) /\
+  (exists mo, run_C18x c2 = Some mo /\ ok_C18x c2 mo = true /\ ox_live mo = 1 /\ ox_mapped mo = 12288) /\
+  zlen (XReadFrom 4099 0 4) = true /\
+  (* the same guard with ONE byte does map a window: the theorem is about length 0, not about a dead model *)
+  fst (run_op Debug Proofs.C17.demo_os Proofs.C17.demo_region (XReadFrom 4099 1 4)) <> [].
+Proof.
+  cbv zeta. split; [vm_compute; reflexivity|]. split; [vm_compute; reflexivity|].
+  split; [eexists; split; [vm_compute; reflexivity|]; repeat split; vm_compute; reflexivity|].
+  split; [eexists; split; [vm_compute; reflexivity|]; repeat split; vm_compute; reflexivity|].
+  split; [reflexivity|]. vm_compute. discriminate.
+Qed.
+
+Print Assumptions C18_xen_zero_len_noop.
+Print Assumptions C18x_model_quiet.
+Print Assumptions C18x_model_ok_partial.
